@@ -172,14 +172,20 @@ func (r *Runner) builtin(ctx context.Context, pos syntax.Pos, name string, args 
 				// In a trap, the status from before the trap was run.
 				exit = r.trapEntryExit
 			}
-		case 1:
-			n, err := strconv.Atoi(args[0])
-			if err != nil {
-				return failf(2, "invalid exit status code: %q\n", args[0])
-			}
-			exit.code = uint8(n)
 		default:
-			return failf(1, "exit cannot take multiple arguments\n")
+			// Like Bash, a bad argument does not keep the shell from exiting.
+			n, err := strconv.ParseInt(strings.Trim(args[0], " \t"), 10, 64)
+			if err != nil {
+				r.errf("invalid exit status code: %q\n", args[0])
+				exit.code = 2
+			} else if len(args) > 1 {
+				r.errf("exit cannot take multiple arguments\n")
+				if exit = r.lastExit; exit.ok() {
+					exit.code = 1
+				}
+			} else {
+				exit.code = uint8(n)
+			}
 		}
 		exit.exiting = true
 	case "set":
@@ -482,6 +488,11 @@ func (r *Runner) builtin(ctx context.Context, pos syntax.Pos, name string, args 
 	case "hash":
 		// TODO: implement. for now, having this as a no-op is better than nothing.
 	case "eval":
+		if len(args) > 0 && args[0] == "--" {
+			args = args[1:]
+		} else if len(args) > 0 && len(args[0]) > 1 && args[0][0] == '-' {
+			return failf(2, "eval: %s: invalid option\n", args[0])
+		}
 		src := strings.Join(args, " ")
 		p := syntax.NewParser()
 		file, err := p.Parse(strings.NewReader(src), "")
@@ -556,8 +567,17 @@ func (r *Runner) builtin(ctx context.Context, pos syntax.Pos, name string, args 
 				parseErr = true
 			},
 		}
-		p.next()
-		expr := p.classicTest("[", false)
+		expr, ok := p.posixTest(args)
+		if !ok {
+			p.next()
+			expr = p.classicTest("[", false)
+			if !p.eof && !parseErr {
+				p.errf("too many arguments")
+			}
+		}
+		if !parseErr {
+			p.checkIntegers(expr)
+		}
 		if parseErr {
 			exit.code = 2
 			return exit
